@@ -4,6 +4,7 @@ from fractions import Fraction as F
 
 from tools.vlib import cases, core, mdpgen, refsolve, runs, solverun
 
+KNOWN_PVI_CLEAR = "pvi-solve-after-history-cleared"
 KS = [[2, 3], [1, 1, 4], [3, 2, 2], [5, 5], [1, 6], [4], [2, 2, 2, 2], [9]]
 
 
@@ -19,6 +20,9 @@ def gen(ctx, per):
 def oracle(c, r, refout, single=None):
     """property predicate on the implementation alone (reference iteration written independently)"""
     if "error" in r:
+        if (c["solver"] == "pvi" and c.get("clear") and r["error"] == "TypeError" and "NoneType" in r.get("message", "")
+                and any(x["converged"] for x in refout[:-1])):
+            return ("KNOWN:" + KNOWN_PVI_CLEAR)
         return f"{c['solver']} raised {r['error']}: {r.get('message', '')[:200]}"
     obs = r["obs"]
     prev = 0
@@ -67,7 +71,9 @@ def run(ctx, build):
         # a single call of a shuffled run uses the same permutation stream only within one process: compare fixed order only
         single = rs if not (c["solver"] == "savi" and c.get("shuffle")) else None
         why = oracle(c, r, refout, single)
-        if why:
+        if why and why.startswith("KNOWN:"):
+            viols.append({"key": why[6:], "what": "PeriodicValueIteration.solve() raises TypeError when called again after a converged call cleared the value history", "input": {"case": c}})
+        elif why:
             viols.append({"key": f"history:{c['solver']}:{c['seed']}", "what": why, "input": {"case": c}})
         if "error" not in r:
             items.append(runs.coq_item(c, r, len(items), perms=perms))
@@ -106,7 +112,7 @@ def search(ctx, build, res, time_budget=60):
             if not guard["ok"]:
                 continue
             why = oracle(c, r, refout, rs)
-            if why:
+            if why and not why.startswith("KNOWN:"):
                 return [{"key": f"history:{c['solver']}:{c['seed']}", "what": why, "input": {"case": c}}]
     return []
 
